@@ -130,7 +130,12 @@ func (d *wrappedSlidingWindowDetector) Check(seq uint64) (func() bool, bool) {
 			d.latestSeq = seq
 			latest = true
 		}
-		d.mask.SetBit(uint(d.latestSeq - seq))
+		if diff > 0 {
+			// seq is behind the head, possibly across the wrap-around.
+			d.mask.SetBit(uint(diff))
+		} else {
+			d.mask.SetBit(0)
+		}
 
 		return latest
 	}, true
